@@ -253,6 +253,18 @@ def r5(ctx, rep):
         for arm in m["arms"]:
             arms.add(last_seg(str(pat_head(arm["pat"]))))
     rep.check({"Compute", "Input"} <= arms, "redirect-both-kinds", f"redirect_mappings must rewrite both Compute and Input targets; arms {sorted(arms)}", file=r["file"], line=r["l"], fn=r["path"])
+    # element-wise: an id is rewritten exactly when IT has a redirect - never conditioned on the other ids of the same input
+    for m in matches_of(r["body"]):
+        for arm in m["arms"]:
+            kind = last_seg(str(pat_head(arm["pat"])))
+            if kind not in ("Compute", "Input"):
+                continue
+            quant = [show(n["c"], maxdepth=8) for n in walk(arm["body"]) if n.get("k") == "if" and re.search(r"\.(all|any)\(", show(n["c"], maxdepth=10))]
+            writes = [n for n in walk(arm["body"]) if n.get("k") == "assign" and show(n["lhs"]).startswith("*")]
+            gets = [n for n in walk(arm["body"]) if n.get("k") == "mcall" and n["m"] in ("get", "contains_key", "remove") and show(n["r"]).endswith("redirects")]
+            rep.check(not quant and bool(writes) and bool(gets), f"redirect:elementwise:{kind}",
+                      f"the {kind} arm of redirect_mappings must rewrite each id that has a redirect, one by one (found quantified condition(s) {quant}): an input of which only some columns were "
+                      "pulled into the new table keeps ids that are not visible in the outer pipeline", file=r["file"], line=arm["l"], fn=r["path"])
 
 
 def r6(ctx, rep):
@@ -366,6 +378,12 @@ def pat_fields(pat):
     return [fname for fname, _ in pat.get("f", [])]
 
 
+def r9(ctx, rep):
+    # a sort of a joined / appended sub-pipeline that leaks into the outer pipeline is lowered to column ids of the pulled-out table
+    import C03
+    rep.borrowed(C03.r4, ctx, "C16.R9", "sort columns attached to outer transforms are columns of the outer pipeline", only=r"join-append")
+
+
 def run(ctx, rep):
-    for r in (r1, r2, r3_r4, r5, r6, r7, r8):
+    for r in (r1, r2, r3_r4, r5, r6, r7, r8, r9):
         rep.guard(r, ctx)
